@@ -295,3 +295,31 @@ class Timer:
 
     def __call__(self):
         return time.time() - self.t0
+
+
+def library_state():
+    """value fingerprint of nanite's module-level state that every curve of
+    the process shares: default fit properties, order rules of the
+    preprocessing steps, registered estimators / models / regressors"""
+    from nanite import fit, preproc, poc, model
+    from nanite.rate import regressors
+    return {
+        "fit.FP_DEFAULT": fp_unordered(dict(fit.FP_DEFAULT)),
+        "preproc step rules": fp([(f.identifier, list(f.steps_required or []),
+                                   list(f.steps_optional or []))
+                                  for f in preproc.PREPROCESSORS]),
+        "poc methods": fp([m.identifier for m in poc.POC_METHODS]),
+        "registered models": fp(sorted(model.models_available)),
+        "regressors": fp(sorted(regressors.reg_dict)),
+    }
+
+
+def check_library_state(rec, before, case=None):
+    """a workload must leave the shared module-level state as it found it"""
+    after = library_state()
+    for k in before:
+        rec.event("shared library state compared (start vs end of shard)")
+        rec.check(before[k] == after[k], "library-state-changed/" + k,
+                  "module-level state '%s' differs between start and end of "
+                  "the workload: results of later curves depend on what "
+                  "earlier calls did" % k, case or {"id": [-1, -1]})
